@@ -230,7 +230,6 @@ fn body(ch: &Chooser, env: &Env, streams: &[usize]) -> Outcome {
 
     // (1) fs::index
     let idx = vmc::catch(|| cram::fs::index(&path));
-    let mut index_from_fs = true;
     let index: crai::Index = match idx {
         Ok(Ok(index)) => {
             ch.tag("fs::index succeeded");
@@ -298,7 +297,6 @@ fn body(ch: &Chooser, env: &Env, streams: &[usize]) -> Outcome {
                 ));
             }
             // known D3a: judged, then the query is still exercised through the walker-built index
-            index_from_fs = false;
             ch.tag("fs::index failed on a multi-reference slice; query exercised through the walker-built index");
             let idx: crai::Index = expected
                 .iter()
@@ -323,7 +321,7 @@ fn body(ch: &Chooser, env: &Env, streams: &[usize]) -> Outcome {
             };
         }
     };
-    run_queries(ch, env, &path, &repo, &header, index, index_from_fs, multi, &scan, recs, &describe)
+    run_queries(ch, env, &path, &repo, &header, index, true, multi, &scan, recs, &describe)
 }
 
 #[allow(clippy::too_many_arguments)]
